@@ -845,7 +845,8 @@ def gen_c09_expr_prog(rng):
 
 
 # engine A/B only (free script text): results of suspended calls used as arguments, in string / array /
-# vector expressions, in conditions; level variables printed at the end
+# vector expressions, in conditions; level variables printed at the end; threads sleeping inside try blocks
+# into which other threads throw catch labels (the machine has no try/catch)
 AB_EXPR_SCRIPTS = [
     # the shape of seeded/C09-ind-6: assignment + arithmetic, level variable
     """t0:
@@ -941,6 +942,174 @@ end
 numf local.n:
 wait 0.125
 end local.n
+""",
+    # try/catch (the shape of seeded/C09-ind-9): workers sleeping inside a try block, each with a watchdog thread that
+    # throws the catch label into it after its own delay (before the first wake-up, between the two, never): for
+    # the save points between a worker's last instruction and the throw, the throw reaches a restored thread that
+    # has not run since the load; the output says which path ran
+    """t0:
+thread worker 1 0.1
+thread worker 2 0.2
+thread worker 3 0.35
+thread worker 4 0.55
+thread worker 5 2
+wait 1.5
+println "main done"
+end
+worker local.id local.when:
+thread watchdog local local.when local.id
+local.progress = 0
+try
+{
+  println "worker " local.id " starts"
+  wait 0.3
+  local.progress = 1
+  wait 0.3
+  local.progress = 2
+  println "worker " local.id " finished normally"
+}
+catch
+{
+aborted:
+  println "worker " local.id " aborted at progress " local.progress
+}
+println "worker " local.id " leaves"
+end
+watchdog local.target local.when local.id:
+wait local.when
+if (local.target)
+{
+  println "watchdog " local.id " fires"
+  local.target throw aborted
+  println "watchdog " local.id " fired"
+}
+else
+{
+  println "watchdog " local.id ": target gone"
+}
+end
+""",
+    # nested try blocks; the target is suspended in `waitthread` (mid-expression), in a catch handler's own wait
+    # and in `waittill`; throws of the inner label, the outer label and a label nobody catches (ends the thread)
+    """t0:
+thread worker
+wait 1.2
+println "main done"
+end
+ctl local.w:
+wait 0.13
+println "throw inner"
+local.w throw inner 5
+wait 0.3
+if (local.w) {
+  println "throw outer"
+  local.w throw outer "bye"
+}
+wait 0.2
+if (local.w) {
+  println "throw unknown"
+  local.w throw nobody
+}
+wait 0.2
+if (local.w) {
+  println "worker still there"
+}
+println "ctl done"
+end
+worker:
+thread ctl local
+local.stage = 0
+try
+{
+  local.stage = 1
+  try
+  {
+    local.stage = 2
+    local.r = waitthread slow 3
+    println "inner done " local.r
+  }
+  catch
+  {
+  inner local.code:
+    println "caught inner " local.code " at stage " local.stage
+    local.stage = 3
+    wait 0.2
+    println "inner handler done"
+  }
+  local.stage = 4
+  level waittill "never"
+  println "not reached"
+}
+catch
+{
+outer local.msg:
+  println "caught outer " local.msg " at stage " local.stage
+}
+println "worker leaves"
+wait 0.5
+println "worker end"
+end
+slow local.x:
+wait 0.4
+println "slow done"
+end (local.x * 2)
+""",
+    # `throw` and `delaythrow` with arguments into threads sleeping in a loop inside try and in `level waittill`
+    """t0:
+level.caught = 0
+thread sleeper 1 0.125
+thread sleeper 2 0.3
+thread sleeper 3 0.45
+thread listener 4 0.2
+thread listener 5 0.7
+wait 1.4
+println "caught " level.caught
+end
+sleeper local.id local.when:
+thread nudge local local.when local.id
+try
+{
+  for (local.i = 1; local.i <= 4; local.i++)
+  {
+    wait 0.25
+    println "sleeper " local.id " lap " local.i
+  }
+}
+catch
+{
+stop local.why local.n:
+  level.caught++
+  println "sleeper " local.id " stopped: " local.why " " local.n " in lap " local.i
+  wait 0.1
+  println "sleeper " local.id " cleanup done"
+}
+end local.id
+listener local.id local.when:
+thread nudge local local.when local.id
+try
+{
+  level waittill "go"
+  println "listener " local.id " went"
+}
+catch
+{
+stop local.why local.n:
+  level.caught++
+  println "listener " local.id " stopped: " local.why " " local.n
+}
+end
+nudge local.t local.when local.id:
+wait local.when
+if (local.id == 2 || local.id == 5)
+{
+  local.t delaythrow stop "delayed" local.id
+}
+else
+{
+  local.t throw stop "now" local.id
+}
+println "nudged " local.id
+end
 """,
 ]
 
